@@ -60,9 +60,9 @@ func main() {
 	}
 	t0 := time.Now()
 
-	timeout := 60
+	timeout := 120
 	if *tier == "thorough" {
-		timeout = 240
+		timeout = 300
 	}
 	if *timeoutF > 0 {
 		timeout = *timeoutF
